@@ -42,6 +42,9 @@ pub struct RepScenario {
     pub kt_ratio: Option<f64>,
     pub max_step_size: f64,
     pub convergence: Option<f64>,
+    /// F-stale: longer output files of an earlier run exist at the output path before every
+    /// non-reference execution
+    pub stale_output: bool,
 }
 
 impl RepScenario {
@@ -61,6 +64,7 @@ impl RepScenario {
             .set("kt_ratio", J::opt_f64bits(self.kt_ratio))
             .set("max_step_size", J::f64bits(self.max_step_size))
             .set("convergence", J::opt_f64bits(self.convergence))
+            .set("stale_output", J::Bool(self.stale_output))
     }
     pub fn from_json(j: &J) -> Result<RepScenario, String> {
         let f = |k: &str| j.get(k).and_then(|x| x.as_f64bits());
@@ -84,6 +88,7 @@ impl RepScenario {
             kt_ratio: f("kt_ratio"),
             max_step_size: f("max_step_size").ok_or("max_step_size")?,
             convergence: f("convergence"),
+            stale_output: j.get("stale_output").and_then(|x| x.as_bool()).unwrap_or(false),
         })
     }
 
@@ -128,6 +133,7 @@ pub fn gen_rep_scenario(rng: &mut sim_core::prng::Rng, max_replicas: u64) -> Rep
         kt_ratio: *rng.pick(&[None, None, Some(0.1)]),
         max_step_size: *rng.pick(&[0.01, 0.1, 0.5]),
         convergence: *rng.pick(&[None, None, Some(1e-6)]),
+        stale_output: rng.chance(0.3),
     }
 }
 
@@ -203,10 +209,15 @@ fn scratch_dir() -> PathBuf {
     PathBuf::from(base).join("sim").join("scratch").join(format!("rep-{}-{}", std::process::id(), id))
 }
 
-fn run_once(sc: &RepScenario, dir: &PathBuf) -> PipeResult {
+fn run_once(sc: &RepScenario, dir: &PathBuf, stale: bool) -> PipeResult {
     let mut res = PipeResult::default();
     LOG_LINES.with(|l| l.borrow_mut().clear());
     let out = dir.join("out");
+    if stale {
+        let junk = vec![b'#'; 20_000];
+        let _ = std::fs::write(out.with_extension("json"), &junk);
+        let _ = std::fs::write(out.with_extension("svg"), &junk);
+    }
     let builder = match sc.builder() {
         Ok(b) => b,
         Err(e) => {
@@ -286,7 +297,7 @@ pub fn run_pipeline(sc: &RepScenario, cfg: &SimConfig, sched: &Sched, iterations
     let body = move || {
         sim::configure(cfg2.clone(), true);
         sim::enter_simulation();
-        let mut r = run_once(&sc2, &dir2);
+        let mut r = run_once(&sc2, &dir2, sc2.stale_output && !cfg2.reference);
         sim::leave_simulation();
         r.stats = sim::take_stats();
         sim::configure(SimConfig::default(), false);
